@@ -1,9 +1,32 @@
 /-
-  C14, second part — exact β tables after `insert_vertices_on_edge` (header completed below).
+  C14, second part — exact β tables after `insert_vertices_on_edge`, and the vertices of the new darts
+  (`honeycomb-kernels/src/cell_insertion/vertices.rs`, model `Model/Kernels/VertexInsertion.lean`).
+
+  PROVED (every well-formed map, every edge shape, every `k`)
+  * `C14_insertVertices_beta_structure` (`InsertResult`) — after a successful call:
+      first side   e → fh[0] → … → fh[k-1] → old successor of e           (β1),
+      second side  e2 → sh[0] → … → sh[k-1] → old successor of e2          (β1, two-dart edge, e2 = β2 e),
+      β2 pairs the two sides in reverse order (e2 ↔ fh[k-1], sh[j] ↔ fh[k-2-j], sh[k-1] ↔ e),
+      every other β1 and β2 image of every dart is unchanged, β0 changes only at the new darts and the two old
+      successors; the result is well formed (so β0 is the inverse of β1 there too, and the null dart keeps its
+      null images).
+  * `C14_new_darts_distinct_vertices` — the vertex of `fh[t]` in the result is `{fh[t]}` (one-dart edge) or
+      `{fh[t], sh[k-1-t]}` (two-dart edge) (`new_vertex_darts`), hence the vertex identifiers of the new darts are
+      pairwise distinct (uses C03: `vertex_id_transac` = minimum of the vertex orbit, equal ids ⇔ same orbit).
+  * `C14_new_vertex_position_full` — `C14_new_vertex_position` without side hypothesis: the i-th point sits at the
+      vertex identifier of the i-th new dart, every other slot of every storage is unchanged.
+  Tools: exact effects of the link cores on sized maps (`*_eff`), "nothing non-null is overwritten" (`Ext`), the two
+  chain loops (`chainFirst_struct`, `chainSecond_struct`).
+
+  * `C14_insertVertex_beta_structure` — the same `InsertResult` (one new dart per side) for `insert_vertex_on_edge`, the
+      `k = 1` kernel with its own code path.
+
+  NOT PROVED: that the vertex orbits of the two END points keep their dart sets (oracle of c14.py).
 -/
 import Honeycomb.Lemmas.KernelWF2
 import Honeycomb.Props.C14
 import Honeycomb.Props.C03
+import Mathlib.Data.List.Nodup
 
 set_option linter.unusedSimpArgs false
 set_option linter.unusedVariables false
@@ -238,6 +261,27 @@ theorem linkOld_eff {l o : Nat} {m m' : Map Val} {a : Unit} (hs : Sized 3 m) (hl
     refine ⟨hs, Ext.refl _, fun y => ?_, fun _ _ => rfl, fun _ => rfl⟩
     by_cases c : l = y
     · subst c; rw [if_pos rfl, ho]; exact hl
+    · rw [if_neg c]
+
+/-- the same step as one uniform table -/
+theorem linkOld_eff' {l o : Nat} {m m' : Map Val} {a : Unit} (hs : Sized 3 m) (hl : m.β 1 l = 0)
+    (h : run (whenP (decide (o ≠ 0)) (oneLinkCore l o)) m = (.ok a, m')) :
+    Sized 3 m' ∧
+      ∀ i d, m'.β i d = if o ≠ 0 ∧ 0 = i ∧ o = d then l else if 1 = i ∧ l = d then o else m.β i d := by
+  rcases whenP_ok h with ⟨hcT, h1⟩ | ⟨hc, hm⟩
+  · obtain ⟨s1, _, _, _, e1⟩ := oneLinkCore_eff hs h1
+    have ho : o ≠ 0 := by simpa using hcT
+    refine ⟨s1, fun i d => ?_⟩
+    rw [e1]
+    by_cases c : 0 = i ∧ o = d
+    · rw [if_pos c, if_pos ⟨ho, c⟩]
+    · rw [if_neg c, if_neg (fun (hh : o ≠ 0 ∧ 0 = i ∧ o = d) => c hh.2)]
+  · rw [hm]
+    have ho : o = 0 := by simpa using hc
+    refine ⟨hs, fun i d => ?_⟩
+    rw [if_neg (fun hh => hh.1 ho)]
+    by_cases c : 1 = i ∧ l = d
+    · obtain ⟨rfl, rfl⟩ := c; rw [if_pos ⟨rfl, rfl⟩, ho]; exact hl
     · rw [if_neg c]
 
 theorem getLastD_mem : ∀ (l : List Nat) (e : Nat), l.getLastD e ∈ e :: l := by
@@ -569,6 +613,208 @@ theorem C14_insertVertices_beta_structure (m m' : Map Val) (e : Nat) (nds : List
         · exact hdisj x hx x c rfl
     · rw [List.length_take, List.length_drop]; omega
 
+/-! ## `insert_vertex_on_edge` (the `k = 1` kernel) -/
+
+theorem sameβ_vid_write (k nd : Nat) (v : Val) {m m' : Map Val} {a : Unit}
+    (h : run (do let vnew ← vertexId2 k nd; let _ ← writeVtx vnew v; pure ()) m = (.ok a, m')) :
+    ∀ i d, m'.β i d = m.β i d := by
+  have ao : AttrOnly (do let vnew ← vertexId2 k nd; let _ ← writeVtx vnew v; pure () : P Val Unit) :=
+    AttrOnly.bind (AttrOnly.of_readOnly (readOnly_vertexId2 _ _)) fun _ =>
+      AttrOnly.bind (attrOnly_writeVtx _ _) fun _ => AttrOnly.pure _
+  have st := ao m
+  rw [h] at st
+  exact st.β
+
+/-- one-dart edge -/
+theorem body1_struct (k : Nat) (v1 v2 : Val) (e nd1 nd2 : Nat) (t : Option Rat) (m m' : Map Val)
+    (hs : Sized 3 m) (hnull : ∀ i, i < 3 → m.β i 0 = 0) (he2 : m.β 2 e = 0) (hnd0 : nd1 ≠ 0)
+    (hfree : ∀ i, i < 3 → m.β i nd1 = 0) (hne : e ≠ nd1)
+    (h : run (insertVertexBody1 k v1 v2 e (m.β 1 e) nd1 t) m = (.ok (), m')) :
+    InsertResult m m' e [nd1] [nd2] := by
+  unfold insertVertexBody1 at h
+  obtain ⟨_, ma, ha, k1⟩ := run_bind_ok h
+  obtain ⟨sa, ea⟩ := unlinkOld_eff hs (hnull 0 (by omega)) ha
+  obtain ⟨_, mb, hb, k2⟩ := run_bind_ok k1
+  obtain ⟨sb, _, _, _, eb⟩ := oneLinkCore_eff sa hb
+  obtain ⟨_, mc, hc, k3⟩ := run_bind_ok k2
+  obtain ⟨sc, _, _, _, ec⟩ := oneLinkCore_eff sb hc
+  have hβ := sameβ_vid_write k nd1 _ k3
+  have f1 : ∀ y, m'.β 1 y = if nd1 = y then m.β 1 e else if e = y then nd1 else m.β 1 y := by
+    intro y
+    rw [hβ, ec, eb, ea]
+    simp only [show ¬ (0 = 1) by decide, false_and, if_false, true_and]
+    by_cases c1 : nd1 = y
+    · simp [c1]
+    · by_cases c2 : e = y
+      · simp [c1, c2]
+      · simp [c1, c2]
+  refine ⟨⟨⟨?_, trivial⟩, ?_⟩, fun hh => absurd he2 hh, fun hh => absurd he2 hh, ?_, ?_, ?_⟩
+  · rw [f1, if_neg (fun hh => hne hh.symm), if_pos rfl]
+  · show m'.β 1 nd1 = m.β 1 e
+    rw [f1, if_pos rfl]
+  · intro y hy _
+    simp only [List.mem_cons, List.not_mem_nil, or_false, not_or] at hy
+    rw [f1, if_neg (fun hh => hy.2 hh.symm), if_neg (fun hh => hy.1 hh.symm)]
+  · intro y _
+    rw [hβ, ec, eb, ea]
+    simp only [show ¬ (0 = 2) by decide, show ¬ (1 = 2) by decide, false_and, if_false]
+  · intro y hy1 hy2 _
+    simp only [List.mem_cons, List.not_mem_nil, or_false] at hy1
+    rw [hβ, ec, if_neg (fun hh => hy2 hh.2.symm), if_neg (fun hh => absurd hh.1 (by decide)), eb,
+      if_neg (fun hh => hy1 hh.2.symm), if_neg (fun hh => absurd hh.1 (by decide)), ea,
+      if_neg (fun hh => hy2 hh.2.symm), if_neg (fun hh => absurd hh.1 (by decide))]
+
+/-- two-dart edge -/
+theorem body2_struct (k : Nat) (v1 v2 : Val) (e nd1 nd2 : Nat) (t : Option Rat) (m m' : Map Val)
+    (hs : Sized 3 m) (hnull : ∀ i, i < 3 → m.β i 0 = 0) (he2 : m.β 2 e ≠ 0) (hee2 : e ≠ m.β 2 e)
+    (hinv : m.β 2 (m.β 2 e) = e)
+    (hnd10 : nd1 ≠ 0) (hnd20 : nd2 ≠ 0)
+    (hfree1 : ∀ i, i < 3 → m.β i nd1 = 0) (hfree2 : ∀ i, i < 3 → m.β i nd2 = 0)
+    (h12 : nd1 ≠ nd2) (hen1 : e ≠ nd1) (hen2 : e ≠ nd2) (h2n1 : m.β 2 e ≠ nd1) (h2n2 : m.β 2 e ≠ nd2)
+    (h : run (insertVertexBody2 k v1 v2 e (m.β 2 e) (m.β 1 e) (m.β 1 (m.β 2 e)) nd1 nd2 t) m = (.ok (), m')) :
+    InsertResult m m' e [nd1] [nd2] := by
+  unfold insertVertexBody2 at h
+  obtain ⟨_, ma, ha, k1⟩ := run_bind_ok h
+  obtain ⟨sa, ea⟩ := unlinkOld_eff hs (hnull 0 (by omega)) ha
+  obtain ⟨_, mb, hb, k2⟩ := run_bind_ok k1
+  have ho2 : ma.β 1 (m.β 2 e) = m.β 1 (m.β 2 e) := by
+    rw [ea, if_neg (fun hh => absurd hh.1 (by decide)), if_neg (fun hh => hee2 hh.2)]
+  have hb' : run (whenP (decide (ma.β 1 (m.β 2 e) ≠ 0)) (oneUnlinkCore (m.β 2 e))) ma = (.ok (), mb) := by
+    rw [ho2]; exact hb
+  have ha00 : ma.β 0 0 = 0 := by
+    rw [ea]
+    by_cases c : m.β 1 e = 0
+    · rw [if_pos ⟨rfl, c⟩]
+    · rw [if_neg (fun hh => c hh.2), if_neg (fun hh => absurd hh.1 (by decide))]; exact hnull 0 (by omega)
+  obtain ⟨sb, eb⟩ := unlinkOld_eff sa ha00 hb'
+  rw [ho2] at eb
+  obtain ⟨_, mc, hc, k3⟩ := run_bind_ok k2
+  obtain ⟨sc, _, ec⟩ := twoUnlinkCore_eff sb hc
+  have hb2e : mb.β 2 e = m.β 2 e := by
+    rw [eb, if_neg (fun hh => absurd hh.1 (by decide)), if_neg (fun hh => absurd hh.1 (by decide)), ea,
+      if_neg (fun hh => absurd hh.1 (by decide)), if_neg (fun hh => absurd hh.1 (by decide))]
+  rw [hb2e] at ec
+  obtain ⟨_, md, hd, k4⟩ := run_bind_ok k3
+  obtain ⟨sd, _, _, _, ed⟩ := oneLinkCore_eff sc hd
+  obtain ⟨_, me, hee, k5⟩ := run_bind_ok k4
+  have hnd1free : md.β 1 nd1 = 0 := by
+    rw [ed, ec, eb, ea]
+    simp only [show ¬ (0 = 1) by decide, show ¬ (2 = 1) by decide, false_and, if_false, true_and,
+      if_neg hen1, if_neg h2n1]
+    exact hfree1 1 (by omega)
+  obtain ⟨se, ee⟩ := linkOld_eff' sd hnd1free hee
+  obtain ⟨_, mf, hf, k6⟩ := run_bind_ok k5
+  obtain ⟨sf, _, _, _, ef⟩ := oneLinkCore_eff se hf
+  obtain ⟨_, mg, hg, k7⟩ := run_bind_ok k6
+  have hnd2free : mf.β 1 nd2 = 0 := by
+    rw [ef, ee, ed, ec, eb, ea]
+    simp only [show ¬ (0 = 1) by decide, show ¬ (2 = 1) by decide, false_and, and_false, if_false, true_and,
+      if_neg h2n2, if_neg h12, if_neg hen2]
+    exact hfree2 1 (by omega)
+  obtain ⟨sg, eg⟩ := linkOld_eff' sf hnd2free hg
+  obtain ⟨_, mh, hh', k8⟩ := run_bind_ok k7
+  obtain ⟨sh', _, _, _, eh⟩ := twoLinkCore_eff sg hh'
+  obtain ⟨_, mi, hi', k9⟩ := run_bind_ok k8
+  obtain ⟨si, _, _, _, ei⟩ := twoLinkCore_eff sh' hi'
+  have hβ := sameβ_vid_write k nd1 _ k9
+  -- the final tables
+  have F1 : ∀ y, m'.β 1 y = if nd2 = y then m.β 1 (m.β 2 e) else if m.β 2 e = y then nd2 else
+      if nd1 = y then m.β 1 e else if e = y then nd1 else m.β 1 y := by
+    intro y
+    rw [hβ, ei, eh, eg, ef, ee, ed, ec, eb, ea]
+    simp only [show ¬ (0 = 1) by decide, show ¬ (2 = 1) by decide, false_and, and_false, if_false, true_and]
+    by_cases c1 : nd2 = y
+    · simp [c1]
+    · by_cases c2 : m.β 2 e = y
+      · simp [c1, c2]
+      · by_cases c3 : nd1 = y
+        · simp [c1, c2, c3]
+        · by_cases c4 : e = y
+          · simp [c1, c2, c3, c4]
+          · simp [c1, c2, c3, c4]
+  have F2 : ∀ y, m'.β 2 y = if nd1 = y then m.β 2 e else if m.β 2 e = y then nd1 else
+      if nd2 = y then e else if e = y then nd2 else m.β 2 y := by
+    intro y
+    rw [hβ, ei, eh, eg, ef, ee, ed, ec, eb, ea]
+    simp only [show ¬ (0 = 2) by decide, show ¬ (1 = 2) by decide, false_and, and_false, if_false, true_and]
+    by_cases c1 : nd1 = y
+    · simp [c1]
+    · by_cases c2 : m.β 2 e = y
+      · simp [c1, c2]
+      · by_cases c3 : nd2 = y
+        · simp [c1, c2, c3]
+        · by_cases c4 : e = y
+          · simp [c1, c2, c3, c4]
+          · simp [c1, c2, c3, c4]
+  refine ⟨⟨⟨?_, trivial⟩, ?_⟩, fun _ => ⟨⟨?_, trivial⟩, ?_⟩, fun _ => ⟨?_, ?_, ?_⟩, ?_, ?_, ?_⟩
+  · rw [F1, if_neg (fun hh => hen2 hh.symm), if_neg (fun hh => hee2 hh.symm), if_neg (fun hh => hen1 hh.symm),
+      if_pos rfl]
+  · show m'.β 1 nd1 = m.β 1 e
+    rw [F1, if_neg (fun hh => h12 hh.symm), if_neg h2n1, if_pos rfl]
+  · rw [F1, if_neg (fun hh => h2n2 hh.symm), if_pos rfl]
+  · show m'.β 1 nd2 = m.β 1 (m.β 2 e)
+    rw [F1, if_pos rfl]
+  · intro p hp
+    simp only [List.reverse_cons, List.reverse_nil, List.nil_append, List.zip_cons_cons, List.zip_nil_right,
+      List.mem_singleton] at hp
+    subst hp
+    exact ⟨by show m'.β 2 (m.β 2 e) = nd1; rw [F2, if_neg (fun hh => h2n1 hh.symm), if_pos rfl],
+      by show m'.β 2 nd1 = m.β 2 e; rw [F2, if_pos rfl]⟩
+  · show m'.β 2 nd2 = e
+    rw [F2, if_neg h12, if_neg h2n2, if_pos rfl]
+  · show m'.β 2 e = nd2
+    rw [F2, if_neg (fun hh => hen1 hh.symm), if_neg (fun hh => hee2 hh.symm), if_neg (fun hh => hen2 hh.symm),
+      if_pos rfl]
+  · intro y hy1 hy2
+    have hy2' := hy2 he2
+    simp only [List.mem_cons, List.not_mem_nil, or_false, not_or] at hy1 hy2'
+    rw [F1, if_neg (fun hh => hy2'.2 hh.symm), if_neg (fun hh => hy2'.1 hh.symm), if_neg (fun hh => hy1.2 hh.symm),
+      if_neg (fun hh => hy1.1 hh.symm)]
+  · intro y hy
+    obtain ⟨hy1, hy2⟩ := hy he2
+    simp only [List.mem_cons, List.not_mem_nil, or_false, not_or] at hy1 hy2
+    rw [F2, if_neg (fun hh => hy1.2 hh.symm), if_neg (fun hh => hy2.1 hh.symm), if_neg (fun hh => hy2.2 hh.symm),
+      if_neg (fun hh => hy1.1 hh.symm)]
+  · intro y hy1 hy2 hy3
+    obtain ⟨hy3a, hy3b⟩ := hy3 he2
+    simp only [List.mem_cons, List.not_mem_nil, or_false] at hy1 hy3a
+    rw [hβ, ei, eh, eg, ef, ee, ed, ec, eb, ea]
+    simp only [show ¬ (1 = 0) by decide, show ¬ (2 = 0) by decide, false_and, and_false, if_false, true_and]
+    rw [if_neg (fun hh => hy3b hh.2.symm), if_neg (fun hh => hy3a hh.symm), if_neg (fun hh => hy2 hh.2.symm),
+      if_neg (fun hh => hy1 hh.symm), if_neg (fun hh => hy3b hh.symm), if_neg (fun hh => hy2 hh.symm)]
+
+/-- **C14 (b), exact β tables for `insert_vertex_on_edge`**: the same `InsertResult` with one new dart per side —
+    `e → nd1 → old successor`, `e2 → nd2 → old successor of e2`, `e2 ↔ nd1`, `nd2 ↔ e`, everything else unchanged —
+    and a well-formed result -/
+theorem C14_insertVertex_beta_structure (m m' : Map Val) (e nd1 nd2 : Nat) (t : Option Rat)
+    (hwf : WF 3 m) (he : C01.InUse m e)
+    (hl1 : m.unused nd1 = false) (hl2 : m.β 2 e ≠ 0 → m.unused nd2 = false ∧ nd1 ≠ nd2)
+    (hend : m.β 1 e ≠ 0 ∨ m.β 2 e ≠ 0)
+    (h : run (insertVertexOnEdge m.n e nd1 nd2 t) m = (.ok (), m')) :
+    WF 3 m' ∧ InsertResult m m' e [nd1] [nd2] := by
+  refine ⟨C14_insertVertex_preserves_WF m m' e nd1 nd2 t hwf he hl1 (fun hh => (hl2 hh).1) hend h, ?_⟩
+  obtain ⟨_, _, hnd1, hnd2, vid1, vid2, v1, v2, _, _, _, _, hB1, hB2⟩ := insertVertex_ok_elim h
+  have hf1 : ∀ i, i < 3 → m.β i nd1 = 0 := fun i hi => free_β hnd1.2.2 i hi
+  have hen1 : e ≠ nd1 := by
+    rintro rfl
+    rcases hend with c | c
+    · exact c (hf1 1 (by omega))
+    · exact c (hf1 2 (by omega))
+  by_cases b2 : m.β 2 e = 0
+  · exact body1_struct m.n v1 v2 e nd1 nd2 t m m' hwf.toSized hwf.null b2 hnd1.1 hf1 hen1 (hB1 b2)
+  · obtain ⟨g1, _, g3⟩ := hnd2 b2
+    have hf2 : ∀ i, i < 3 → m.β i nd2 = 0 := fun i hi => free_β g3 i hi
+    have hinv := hwf.invol 2 (by omega) (by omega) e he.2.1 b2
+    refine body2_struct m.n v1 v2 e nd1 nd2 t m m' hwf.toSized hwf.null b2 (fun hh => hinv.2 hh.symm) hinv.1
+      hnd1.1 g1 hf1 hf2 (hl2 b2).2 hen1 ?_ ?_ ?_ (hB2 b2)
+    · rintro rfl; exact b2 (hf2 2 (by omega))
+    · intro hh
+      have := hf1 2 (by omega)
+      rw [← hh, hinv.1] at this; exact he.1 this
+    · intro hh
+      have := hf2 2 (by omega)
+      rw [← hh, hinv.1] at this; exact he.1 this
+
 /-! ## the new darts lie in pairwise distinct vertices -/
 
 theorem B1Chain.index {m : Map Val} : ∀ (l : List Nat) (d j : Nat), B1Chain m d l → j < l.length →
@@ -768,7 +1014,6 @@ theorem C14_new_darts_distinct_vertices (m m' : Map Val) (e : Nat) (nds : List N
   have ra := (C03.C03_vertexId2_min hwf' a0 (by rw [hn]; exact alt)).1
   have rb := (C03.C03_vertexId2_min hwf' b0 (by rw [hn]; exact blt)).1
   rw [hn] at ra rb
-  simp only at hab
   rw [ra, rb] at hab
   simp only [Out.ok.injEq] at hab
   have hreach := (C03.C03_same_id_iff_same_cell hwf' (pol := .vertex) trivial a0 (by rw [hn]; exact alt) b0
@@ -843,5 +1088,10 @@ example : [(run (vertexId2 exMap2.n 5) exRes2).1, (run (vertexId2 exMap2.n 8) ex
     (run (vertexId2 exMap2.n 6) exRes2).1, (run (vertexId2 exMap2.n 7) exRes2).1] = [.ok 5, .ok 5, .ok 6, .ok 6] := by
   decide +kernel
 example : [exRes2.att 0 5, exRes2.att 0 6] = [some (.pt 1 0 0), some (.pt 2 0 0)] := by decide +kernel
+
+/-- `insert_vertex_on_edge` on the same two-dart edge: 1 → 5 → 2, 4 → 6, β2: 4 ↔ 5, 6 ↔ 1 -/
+example : InsertResult exMap2 (run (insertVertexOnEdge exMap2.n 1 5 6 none) exMap2).2 1 [5] [6] :=
+  (C14_insertVertex_beta_structure exMap2 _ 1 5 6 none (by decide +kernel) (by decide +kernel) (by decide +kernel)
+    (by decide +kernel) (by decide +kernel) (ok_of_fst (by decide +kernel))).2
 
 end HC.C14
